@@ -690,25 +690,41 @@ func (lm *levelManager) compactBuildTables(lev int, cd compactDef) ([]*table, fu
 	res := make(chan *table, 3)
 	// Throttle inflight builders to bound memory and file handles.
 	inflightBuilders := utils.NewThrottle(8 + len(cd.splits))
+	// Collect table handles via fan-in.
+	var newTables []*table
+	var wg sync.WaitGroup
+	collect := func() {
+		wg.Go(func() {
+			for t := range res {
+				newTables = append(newTables, t)
+			}
+		})
+	}
+	serial := verifhook.Enabled("lsm.serial-table-build")
+	if serial {
+		collect() // simulation: sub-compactions run one after the other on this goroutine
+	}
 	for _, kr := range cd.splits {
-		if err := inflightBuilders.Go(func() error {
+		run := func() error {
 			it := NewMergeIterator(newIterator(), false)
 			defer func() { _ = it.Close() }()
 			lm.subcompact(it, kr, cd, inflightBuilders, res)
 			return nil
-		}); err != nil {
+		}
+		if serial {
+			if err := inflightBuilders.Do(); err != nil {
+				return nil, nil, fmt.Errorf("cannot start subcompaction: %+v", err)
+			}
+			inflightBuilders.Done(run())
+			continue
+		}
+		if err := inflightBuilders.Go(run); err != nil {
 			return nil, nil, fmt.Errorf("cannot start subcompaction: %+v", err)
 		}
 	}
-
-	// Collect table handles via fan-in.
-	var newTables []*table
-	var wg sync.WaitGroup
-	wg.Go(func() {
-		for t := range res {
-			newTables = append(newTables, t)
-		}
-	})
+	if !serial {
+		collect()
+	}
 
 	// Wait for all compaction tasks to finish.
 	err := inflightBuilders.Finish()
@@ -1072,7 +1088,7 @@ func (lm *levelManager) subcompact(it utils.Iterator, kr compact.KeyRange, cd co
 			break
 		}
 		// Leverage SSD parallel write throughput.
-		go func(builder *tableBuilder) {
+		build := func(builder *tableBuilder) {
 			// A table that could not be built must fail the whole compaction:
 			// otherwise its inputs are deleted and the entries are gone.
 			var buildErr error
@@ -1087,7 +1103,12 @@ func (lm *levelManager) subcompact(it utils.Iterator, kr compact.KeyRange, cd co
 				return
 			}
 			res <- tbl
-		}(builder)
+		}
+		if verifhook.Enabled("lsm.serial-table-build") {
+			build(builder) // simulation: file ids and file operations in program order
+		} else {
+			go build(builder)
+		}
 	}
 }
 
